@@ -90,6 +90,7 @@ def vclass(dt, ln, v):
 def run(ctx, desc):
     import canopen
     oracles.install_pdo_bits(ctx)
+    oracles.install_pdo_structure(ctx)
     oracles.install_codec(ctx, prefix="ambient_codec")
     if "ambient" in desc:
         from canmon import ambient
@@ -119,6 +120,38 @@ def run(ctx, desc):
         layouts.append(gen.random_layout(rng))
     for li, fields in enumerate(layouts):
         run_layout(ctx, rng, node, fields, desc["maxbits"], via=("add_variable", "by-name", "read")[li % 3])
+        if li % 9 == 8 and len(fields) > 1:
+            failed_read(ctx, rng, node, fields)
+
+
+def failed_read(ctx, rng, node, fields):
+    """A (re-)read of the mapping that fails half-way (here: a dictionary whose k-th mapping entry has no value; on a live
+    device an SDO abort) must leave a map that is still a map: the structure contract judges what is left behind, and
+    the variables that are left read and write their own bits."""
+    pmap = node.tpdo[1]
+    od = node.object_dictionary
+    k = rng.randint(2, len(fields))
+    od[0x1800][1].value, od[0x1800][2].value = 0x181, 1
+    od[0x1A00][0].value = len(fields)
+    for i, (dt, ln) in enumerate(fields, start=1):
+        od[0x1A00][i].value = (gen.TYPE_INDEX_BASE + dt) << 16 | ln
+    saved = (od[0x1A00][k].value, od[0x1A00][k].default)
+    od[0x1A00][k].value = od[0x1A00][k].default = None
+    ctx.case(("failed-read", len(fields), k), nontrivial=True)
+    try:
+        pmap.read(from_od=True)
+        ctx.violation("pdo-read-accepted-missing-entry", f"read(from_od=True) returned although mapping entry {k} has no value", {"fields": len(fields), "k": k})
+    except Exception:  # noqa: BLE001 - expected; what it leaves behind is judged by the structure contract
+        pass
+    od[0x1A00][k].value, od[0x1A00][k].default = saved
+    for var in pmap.map:
+        try:
+            v = var.raw
+            var.raw = v
+        except Exception as exc:  # noqa: BLE001
+            ctx.violation(f"pdo-variable-unusable-after-failed-read:{type(exc).__name__}", f"after a failed read() variable {var.name} raised {exc!r}",
+                          {"fields": len(fields), "k": k})
+            break
 
 
 def run_layout(ctx, rng, node, fields, maxbits, only=None, via="add_variable"):
@@ -193,6 +226,7 @@ def run_layout(ctx, rng, node, fields, maxbits, only=None, via="add_variable"):
 def replay(ctx, case):
     import canopen
     oracles.install_pdo_bits(ctx)
+    oracles.install_pdo_structure(ctx)
     inv = {v: k for k, v in R.NAMES.items()}
     fields = [(inv[n], ln) for n, ln in case["fields"]]
     node = canopen.RemoteNode(1, gen.typed_od())
